@@ -381,6 +381,9 @@ func (m *ldbManager) Pop() error {
 
 	m.changes.Lock()
 	defer m.changes.Unlock()
+	// cached overlays were built for a frontier which is about to be abandoned
+	m.l1Cache.Purge()
+	m.l2Cache.Purge()
 
 	if err := ApplyPatch(NewLevelDBWrapper(m.ldb).Subset(frontierByte), rollbackPatch); err != nil {
 		return err
